@@ -93,6 +93,10 @@ def breaks():
              ('<a href="foo\\\nbar">', '<a href="foo\\\nbar">'), ('foo\nbaz', 'foo\nbaz'), ('foo \n baz', 'foo\nbaz'), ('foo \nbaz', 'foo\nbaz'),
              ('foo\\', 'foo\\'), ('foo  ', 'foo'), ('a\\\\\nb', 'a\\\nb'), ('**s  \nt** u', '<strong>s<br />\nt</strong> u'),
              ('[t  \nu](/d)', '<a href="/d">t<br />\nu</a>'),
+             # inside an image description a break of either kind is flattened to white space in the alt text (the specification has no
+             # example; cmark writes a space, commonmark.js a line ending - a space is expected here, as cmark does)
+             ('![a  \nb](/i)', '<img src="/i" alt="a b" />'), ('![a\\\nb](/i)', '<img src="/i" alt="a b" />'), ('![a\nb](/i)', '<img src="/i" alt="a b" />'),
+             ('![*a  \nb*](/i "t")', '<img src="/i" alt="a b" title="t" />'), ('[![a  \nb](/i)](/d)', '<a href="/d"><img src="/i" alt="a b" /></a>'),
              # an odd number of backslashes before the line ending: the last one makes the hard break
              ('a\\\\\\\nb', 'a\\<br />\nb'), ('a\\\\\\\\\nb', 'a\\\\\nb'), ('a\\\\\\\\\\\nb', 'a\\\\<br />\nb'), ('C:\\\\t\\\\\\\nis', 'C:\\t\\<br />\nis')]
     for md, want in cases:
